@@ -26,6 +26,9 @@ var nullableFields = []struct{ typ, field, how string }{
 	{"baseObject", "prototype", "Object.create(null) / Object.setPrototypeOf(o, null)"},
 	{"proxyObject", "target", "Proxy.revocable(...).revoke()"},
 	{"proxyObject", "handler", "Proxy.revocable(...).revoke()"},
+	{"valueProperty", "getterFunc", "an accessor property defined with get: undefined"},
+	{"valueProperty", "setterFunc", "an accessor property defined with set: undefined"},
+	{"iteratorRecord", "next", "an iterator whose `next` is not callable ({[Symbol.iterator](){ return {} }})"},
 }
 
 func runNilProto(p *core.Prog) *core.Result {
@@ -66,11 +69,32 @@ func runNilField(p *core.Prog, res *core.Result, fProto *types.Var, label, how s
 			}
 		}
 		core.AllInstrs(f, func(in ssa.Instruction) {
-			use, ok := in.(*ssa.FieldAddr)
-			if !ok {
+			var v ssa.Value
+			var usePos token.Pos
+			switch use := in.(type) {
+			case *ssa.FieldAddr:
+				v, usePos = core.Origin(use.X), use.Pos()
+			case ssa.CallInstruction:
+				if use.Common().IsInvoke() {
+					return
+				}
+				if callee := use.Common().StaticCallee(); callee != nil {
+					// handing the value to a function that calls that parameter without a nil test
+					for ai, a := range use.Common().Args {
+						if _, ok := isProtoLoad(core.Origin(a)); ok && ai < len(callee.Params) && callsParamUnguarded(callee, ai) {
+							v, usePos = core.Origin(a), use.Pos()
+						}
+					}
+					if v == nil {
+						return
+					}
+				} else {
+					// calling a nil func value
+					v, usePos = core.Origin(use.Common().Value), use.Pos()
+				}
+			default:
 				return
 			}
-			v := core.Origin(use.X)
 			fa, ok := isProtoLoad(v)
 			if !ok {
 				return
@@ -81,7 +105,7 @@ func runNilField(p *core.Prog, res *core.Result, fProto *types.Var, label, how s
 			if n[k] > 1 {
 				key = fmt.Sprintf("%s#%d", k, n[k])
 			}
-			pos := p.Pos(use.Pos())
+			pos := p.Pos(usePos)
 			if why, ok := nilProtoAudited[core.FuncName(f)]; ok {
 				res.OK(key, pos, "audited: "+why)
 				return
@@ -123,4 +147,27 @@ func isFreshObject(v ssa.Value) bool {
 		return isFreshObject(x.X)
 	}
 	return false
+}
+
+// callsParamUnguarded: f calls its i-th parameter (a func value) somewhere without a dominating
+// non-nil test of it.
+func callsParamUnguarded(f *ssa.Function, i int) bool {
+	if len(f.Blocks) == 0 {
+		return false
+	}
+	prm := f.Params[i]
+	found := false
+	core.AllInstrs(f, func(in ssa.Instruction) {
+		c, ok := in.(ssa.CallInstruction)
+		if !ok || c.Common().IsInvoke() || c.Common().StaticCallee() != nil || core.Origin(c.Common().Value) != prm {
+			return
+		}
+		for _, cp := range core.ControllingConds(in.Block()) {
+			if x, nonNil, ok := core.IsNilCompare(cp.Cond); ok && cp.Pol == nonNil && core.Origin(x) == prm {
+				return
+			}
+		}
+		found = true
+	})
+	return found
 }
